@@ -367,7 +367,7 @@ def run_schedule(schedule, out=(), err=(), in_script=None, in_tty=False, pty=Fal
         sched = Sched()
         env = Env(out=out, err=err, hold_open=hold_open)
         GThread, GEvent, GTimer, GRunner = make_classes(sched, env)
-        shim_threading = types.SimpleNamespace(Timer=GTimer, Event=threading.Event, Thread=threading.Thread,
+        shim_threading = types.SimpleNamespace(Timer=GTimer, Event=GEvent, Thread=threading.Thread,
                                                local=threading.local, Lock=threading.Lock)
         shim_time = types.SimpleNamespace(sleep=lambda x: None, time=_time.time)
         old = (R.threading, R.time, R.ExceptionHandlingThread, R.os)
